@@ -25,7 +25,14 @@ fn main() {
                     continue;
                 }
                 let sc: Scenario = serde_json::from_str(&line).expect("scenario json");
-                let dir = Box::new(script::ScriptDirector::new(sc.steps.clone()));
+                let dir: Box<dyn runner::Director> = if sc.drain {
+                    Box::new(script::ChainDirector::new(
+                        sc.steps.clone(),
+                        rnd::RandomDirector::benign_tail(n as u64, sc.cfg.rx),
+                    ))
+                } else {
+                    Box::new(script::ScriptDirector::new(sc.steps.clone()))
+                };
                 let res = runner::run_scenario(&sc.cfg, dir);
                 for l in &res.lines {
                     writeln!(out, "{l}").unwrap();
